@@ -48,7 +48,12 @@ fn bx(e: Expr) -> Box<Expr> { Box::new(e) }
 fn s(x: &str) -> Expr { Expr::Str(x.into()) }
 fn shaped(rng: &mut Rng, names: &[String]) -> Expr {
     let id = |rng: &mut Rng| Expr::Ident(rng.pick(names).clone());
-    match rng.below(16) {
+    match rng.below(20) {
+        // near misses of the rewrite patterns: the same bodies under `+` / `{1,}` (must stay as they are)
+        16 => Expr::RepOnce(bx(Expr::Seq(bx(Expr::NegPred(bx(Expr::Choice(bx(s("a")), bx(s("b")))))), bx(Expr::Ident("ANY".into()))))),
+        17 => Expr::RepMin(bx(Expr::Seq(bx(Expr::NegPred(bx(s("a")))), bx(Expr::Ident("ANY".into())))), 1),
+        18 => Expr::RepOnce(bx(Expr::Seq(bx(Expr::NegPred(bx(id(rng)))), bx(Expr::Ident("ANY".into()))))),
+        19 => Expr::Seq(bx(Expr::RepOnce(bx(Expr::Seq(bx(s("a")), bx(s("b")))))), bx(s("a"))),
         0 => Expr::Seq(bx(Expr::Seq(bx(Expr::Seq(bx(s("a")), bx(s("b")))), bx(id(rng)))), bx(s("c"))),
         1 => Expr::Choice(bx(Expr::Choice(bx(Expr::Choice(bx(s("a")), bx(s("b")))), bx(id(rng)))), bx(s("c"))),
         2 => Expr::Rep(bx(Expr::Seq(bx(Expr::NegPred(bx(Expr::Choice(bx(s("a")), bx(Expr::Choice(bx(id(rng)), bx(s("b")))))))), bx(Expr::Ident("ANY".into()))))),
@@ -102,7 +107,7 @@ fn main() {
                 let cfg = GenCfg { extras: EXTRAS, guarded: true, stack_ops: gi % 2 == 0, tags: false, max_rules: 4, max_depth: 4, builtin_names: false, tag_shapes: TAG_SHAPES };
                 let mut rules = if gi < 32 { gen_grammar_idiom(&mut rng, &cfg, gi) } else { gen_grammar(&mut rng, &cfg) };
                 // make sure the rewrites have something to do: sprinkle shaped sub-expressions that keep the grammar guarded
-                if rng.chance(2, 3) { let e = match rng.below(6) { 0 => Expr::Seq(bx(Expr::Seq(bx(s("a")), bx(s("b")))), bx(s("c"))), 1 => Expr::Choice(bx(Expr::Seq(bx(s("a")), bx(s("b")))), bx(Expr::Seq(bx(s("a")), bx(s("c"))))),
+                if rng.chance(2, 3) { let e = match rng.below(8) { 6 => Expr::RepOnce(bx(Expr::Seq(bx(Expr::NegPred(bx(Expr::Choice(bx(s("a")), bx(s("b")))))), bx(Expr::Ident("ANY".into()))))), 7 => Expr::RepOnce(bx(Expr::Seq(bx(Expr::NegPred(bx(s("b")))), bx(Expr::Ident("ANY".into()))))), 0 => Expr::Seq(bx(Expr::Seq(bx(s("a")), bx(s("b")))), bx(s("c"))), 1 => Expr::Choice(bx(Expr::Seq(bx(s("a")), bx(s("b")))), bx(Expr::Seq(bx(s("a")), bx(s("c"))))),
                         2 => Expr::Choice(bx(Expr::Seq(bx(s("a")), bx(s("b")))), bx(s("a"))), 3 => Expr::Choice(bx(s("a")), bx(Expr::Seq(bx(s("a")), bx(s("c"))))),
                         4 => Expr::Rep(bx(Expr::Seq(bx(Expr::NegPred(bx(Expr::Choice(bx(s("a")), bx(s("b")))))), bx(Expr::Ident("ANY".into()))))), _ => Expr::Seq(bx(Expr::Rep(bx(Expr::Seq(bx(s("a")), bx(s("b")))))), bx(s("a"))) };
                     let ty = *rng.pick(&[RuleType::Atomic, RuleType::Normal, RuleType::CompoundAtomic]);
